@@ -105,6 +105,21 @@ def generate(tier, rng):
         c = _pick_carrier(rng, vals, scalar)
         if c:
             yield _r5(signed, n, f, r, o, c, rng.choice(C.ROUTES), vals)
+    # extended-precision inputs and wide fixed-point sources: a code plus or minus a sliver that a double cannot hold
+    if C.LD_MANT > 53:
+        for _ in range(300 if tier == 'quick' else 6000):
+            signed, n, f = G.rand_format(rng, max_word=30)
+            r, o = rng.choice(ROUNDS), rng.choice(OVFS)
+            lo, hi = lims(signed, n)
+            k = rng.choice([1, 1, 2, 3])
+            vals = []
+            for _ in range(k):
+                c = rng.choice([rng.randint(lo, hi), rng.randint(lo, hi), 0, 1, -1 if signed else 1, lo, hi])
+                j = rng.randint(54, 63) - max(abs(c).bit_length(), 1)
+                vals.append((Fraction(c) + rng.choice([1, -1]) * Fraction(1, 2 ** j)) / Fraction(2) ** f)
+            car = rng.choice(['np.longdouble', 'fxp']) if k == 1 else rng.choice(['arr.longdouble', 'arr.fxp'])
+            if all(G.in_c01_domain(n, f, v) for v in vals) and C.ok_for(car, vals):
+                yield _r5(signed, n, f, r, o, car, rng.choice(C.ROUTES if k == 1 else ('ctor', 'call', 'setval', 'tmpl')), vals)
     for _ in range(nrand // 4):
         signed, n, f = G.rand_format(rng)
         lo, hi = lims(signed, n)
